@@ -3,12 +3,14 @@
 pub mod c06;
 pub mod c07;
 pub mod c08;
+pub mod c09;
 pub mod lin;
 pub mod schedprops;
 pub mod c10;
 pub mod concprogs;
 pub mod c14;
 pub mod c16;
+pub mod c17;
 pub mod crashprops;
 
 use crate::seq::{self, Suite};
@@ -153,12 +155,20 @@ pub fn run_check(prop: &str, tier: &str) -> i32 {
             schedprops::run_programs(progs, bound, 4000, budget, &schedprops::judge_linearizable, None, &["C08", "C07", "C14", "C20"], &mut report);
             report.set("explanation", "controlled scheduler over application threads, the flush worker and the periodic coordinator of a real persistent store on 3-6 block devices; every read result is checked by linearization against the model (StaleExtent permitted only under a concurrent rewrite) and an I/O monitor fails the run if a device write intersects an extent a reader still holds");
         }
+        "C17" => {
+            report.level = "exploration";
+            c17::check(tier, budget, &mut report);
+        }
         "C18" => {
             let bound = if thorough { 2 } else { 1 };
             let mut progs = c08::contention_programs(thorough);
             progs.extend(c08::programs(false).into_iter().step_by(5));
             schedprops::run_programs(progs, bound, 4000, budget, &schedprops::judge_linearizable, None, &["C18"], &mut report);
             report.set("explanation", "termination oracle: an execution must end with every thread finished within the decision horizon; 'no enabled thread' is a deadlock, the horizon a livelock; contention programs cover concurrent flush callers, flush vs periodic tick, full device, reader held inside a read");
+        }
+        "C09" => {
+            report.level = "fault_enumeration";
+            c09::check(tier, budget, &mut report);
         }
         "C10" => {
             let deep = suites::layout_suites(thorough);
